@@ -80,4 +80,582 @@ Section EvalProofs.
     | (inr er, s') => (inr er, s')
     end.
   Proof. reflexivity. Qed.
+
+  (* ---------- one-step equations (definitional; they are C08's and C09's statements) ---------- *)
+
+  Lemma eval_err a b s :
+    ev (EOp OErr a b) s =
+    match ev a s with
+    | (inl v, s') => (inl v, s')
+    | (inr Error, s') => ev b s'
+    | (inr er, s') => (inr er, s')
+    end.
+  Proof. reflexivity. Qed.
+
+  Lemma eval_or a b s :
+    ev (EOp OOr a b) s =
+    match ev a s with
+    | (inl v, s') => if falsy v then ev b s' else (inl v, s')
+    | (inr er, s') => (inr er, s')
+    end.
+  Proof. reflexivity. Qed.
+
+  Lemma eval_and a b s :
+    ev (EOp OAnd a b) s =
+    match ev a s with
+    | (inl v, s') =>
+        if falsy v then (inl (VBool false), s')
+        else match ev b s' with
+             | (inl w, s'') => (match try_and v w with Some r => inl r | None => inr Error end, s'')
+             | (inr er, s'') => (inr er, s'')
+             end
+    | (inr er, s') => (inr er, s')
+    end.
+  Proof. reflexivity. Qed.
+
+  Definition plain (o : opcode) : bool :=
+    match o with OErr | OOr | OAnd => false | _ => true end.
+
+  Lemma eval_plain o a b s :
+    plain o = true ->
+    ev (EOp o a b) s =
+    match ev a s with
+    | (inl v, s') =>
+        match ev b s' with
+        | (inl w, s'') => (match binop o v w with Some r => inl r | None => inr Error end, s'')
+        | (inr er, s'') => (inr er, s'')
+        end
+    | (inr er, s') => (inr er, s')
+    end.
+  Proof. destruct o; intros H; try discriminate; reflexivity. Qed.
+
+  Lemma eval_assign_inf ok er e d s :
+    ev (EAssignInf ok er e d) s =
+    match ev e s with
+    | (inl v, s') => (inl v, target_insert (target_insert s' ok v) er VNull)
+    | (inr Error, s') => (inl ERRMSG, target_insert (target_insert s' ok d) er ERRMSG)
+    | (inr c, s') => (inr c, s')
+    end.
+  Proof. reflexivity. Qed.
+
+  (* ---------- evaluation contexts ---------- *)
+
+  Inductive ctx :=
+  | CHole
+  | CErrL (C : ctx) (b : expr) | CErrR (a : expr) (C : ctx)
+  | COrL (C : ctx) (b : expr) | COrR (a : expr) (C : ctx)
+  | CAndL (C : ctx) (b : expr) | CAndR (a : expr) (C : ctx)
+  | COpL (o : opcode) (C : ctx) (b : expr) | COpR (o : opcode) (a : expr) (C : ctx)
+  | CNot (C : ctx) | CGroup (C : ctx) | CQExpr (C : ctx) (p : path)
+  | CAssign (t : target) (C : ctx) | CAssignInf (ok er : target) (C : ctx) (d : value)
+  | CArr (pre : list expr) (C : ctx) (post : list expr)
+  | CObj (pre : list (bytes * expr)) (k : bytes) (C : ctx) (post : list (bytes * expr))
+  | CCall (f : fname) (pre : list expr) (C : ctx) (post : list expr)
+  | CBlock (pre : list expr) (C : ctx) (post : list expr)
+  | CIfPred (pre : list expr) (C : ctx) (post : list expr) (t : list expr) (f : option (list expr))
+  | CIfThen (c : list expr) (pre : list expr) (C : ctx) (post : list expr) (f : option (list expr))
+  | CIfElse (c t : list expr) (pre : list expr) (C : ctx) (post : list expr)
+  | CReturn (C : ctx) | CAbortMsg (C : ctx)
+  | CClosureArg (cf : cfn) (C : ctx) (ps : list ident) (body : list expr).
+
+  Fixpoint plug (C : ctx) (x : expr) : expr :=
+    match C with
+    | CHole => x
+    | CErrL C b => EOp OErr (plug C x) b
+    | CErrR a C => EOp OErr a (plug C x)
+    | COrL C b => EOp OOr (plug C x) b
+    | COrR a C => EOp OOr a (plug C x)
+    | CAndL C b => EOp OAnd (plug C x) b
+    | CAndR a C => EOp OAnd a (plug C x)
+    | COpL o C b => EOp o (plug C x) b
+    | COpR o a C => EOp o a (plug C x)
+    | CNot C => ENot (plug C x)
+    | CGroup C => EGroup (plug C x)
+    | CQExpr C p => EQExpr (plug C x) p
+    | CAssign t C => EAssign t (plug C x)
+    | CAssignInf ok er C d => EAssignInf ok er (plug C x) d
+    | CArr pre C post => EArr (pre ++ plug C x :: post)
+    | CObj pre k C post => EObj (pre ++ (k, plug C x) :: post)
+    | CCall f pre C post => ECall f (pre ++ plug C x :: post)
+    | CBlock pre C post => EBlock (pre ++ plug C x :: post)
+    | CIfPred pre C post t f => EIf (pre ++ plug C x :: post) t f
+    | CIfThen c pre C post f => EIf c (pre ++ plug C x :: post) f
+    | CIfElse c t pre C post => EIf c t (Some (pre ++ plug C x :: post))
+    | CReturn C => EReturn (plug C x)
+    | CAbortMsg C => EAbort (Some (plug C x))
+    | CClosureArg cf C ps body => EClosure cf (plug C x) ps body
+    end.
+
+  (* everything evaluated before the hole succeeds: the state in which the hole is evaluated *)
+  Fixpoint seq (es : list expr) (s : state) : option state :=
+    match es with
+    | [] => Some s
+    | e :: r => match ev e s with (inl _, s') => seq r s' | _ => None end
+    end.
+
+  Definition bind_st (o : option state) (f : state -> option state) : option state :=
+    match o with Some s => f s | None => None end.
+
+  (* `reach C s = Some s1`: starting in s, evaluation of `plug C x` gets to the hole, in state s1
+     (all earlier operands succeed and the short-circuit conditions select the hole) *)
+  Fixpoint reach (C : ctx) (s : state) : option state :=
+    match C with
+    | CHole => Some s
+    | CErrL C _ | COrL C _ | CAndL C _ => reach C s
+    | CErrR a C => match ev a s with (inr Error, s') => reach C s' | _ => None end
+    | COrR a C => match ev a s with (inl v, s') => if falsy v then reach C s' else None | _ => None end
+    | CAndR a C => match ev a s with (inl v, s') => if falsy v then None else reach C s' | _ => None end
+    | COpL o C _ => if plain o then reach C s else None
+    | COpR o a C => if plain o then match ev a s with (inl _, s') => reach C s' | _ => None end else None
+    | CNot C | CGroup C | CQExpr C _ | CAssign _ C | CAssignInf _ _ C _ | CReturn C | CAbortMsg C
+    | CClosureArg _ C _ _ => reach C s
+    | CArr pre C _ | CCall _ pre C _ | CBlock pre C _ | CIfPred pre C _ _ _ => bind_st (seq pre s) (reach C)
+    | CObj pre _ C _ => bind_st (seq (map snd pre) s) (reach C)
+    | CIfThen c pre C _ _ =>
+        match blk c s with (inl (VBool true), s') => bind_st (seq pre s') (reach C) | _ => None end
+    | CIfElse c _ pre C _ =>
+        match blk c s with (inl (VBool false), s') => bind_st (seq pre s') (reach C) | _ => None end
+    end.
+
+  Definition is_ctl (e : err) : bool := match e with Return _ | Abort _ => true | _ => false end.
+
+  Lemma blk_ctl pre : forall e post s s1 ce s2,
+    seq pre s = Some s1 -> ev e s1 = (inr ce, s2) -> blk (pre ++ e :: post) s = (inr ce, s2).
+  Proof.
+    induction pre as [|p pre IH]; intros e post s s1 ce s2 Hs He; cbn [seq] in Hs.
+    - inversion Hs; subst. cbn [app blk]. destruct post; rewrite He; reflexivity.
+    - destruct (ev p s) as [[v|er] s'] eqn:Ep; try discriminate.
+      cbn [app]. destruct (pre ++ e :: post) eqn:El; [destruct pre; discriminate|].
+      change (blk (p :: e0 :: l) s) with
+        (match ev p s with (inl _, s') => blk (e0 :: l) s' | (inr er, s') => (inr er, s') end).
+      rewrite Ep. rewrite <- El. eapply IH; eauto.
+  Qed.
+
+  Lemma arr_go_ctl pre : forall e post acc s s1 ce s2,
+    seq pre s = Some s1 -> ev e s1 = (inr ce, s2) -> arr_go (pre ++ e :: post) acc s = (inr ce, s2).
+  Proof.
+    induction pre as [|p pre IH]; intros e post acc s s1 ce s2 Hs He; cbn [seq] in Hs.
+    - inversion Hs; subst. cbn [app arr_go]. rewrite He. reflexivity.
+    - destruct (ev p s) as [[v|er] s'] eqn:Ep; try discriminate.
+      cbn [app arr_go]. rewrite Ep. eapply IH; eauto.
+  Qed.
+
+  Lemma call_go_ctl f pre : forall e post acc s s1 ce s2,
+    seq pre s = Some s1 -> ev e s1 = (inr ce, s2) -> call_go f (pre ++ e :: post) acc s = (inr ce, s2).
+  Proof.
+    induction pre as [|p pre IH]; intros e post acc s s1 ce s2 Hs He; cbn [seq] in Hs.
+    - inversion Hs; subst. cbn [app call_go]. rewrite He. reflexivity.
+    - destruct (ev p s) as [[v|er] s'] eqn:Ep; try discriminate.
+      cbn [app call_go]. rewrite Ep. eapply IH; eauto.
+  Qed.
+
+  Lemma obj_go_ctl pre : forall k e post acc s s1 ce s2,
+    seq (map snd pre) s = Some s1 -> ev e s1 = (inr ce, s2) ->
+    obj_go (pre ++ (k, e) :: post) acc s = (inr ce, s2).
+  Proof.
+    induction pre as [|[k0 p] pre IH]; intros k e post acc s s1 ce s2 Hs He; cbn [seq map snd] in Hs.
+    - inversion Hs; subst. cbn [app obj_go]. rewrite He. reflexivity.
+    - destruct (ev p s) as [[v|er] s'] eqn:Ep; try discriminate.
+      cbn [app obj_go]. rewrite Ep. eapply IH; eauto.
+  Qed.
+
+  (* The central lemma of C06 and C07: a `return` or `abort` raised at the hole of any context
+     (no closure body in between) comes out of the whole expression unchanged, and the state is
+     exactly the state at that point: nothing that comes later in evaluation order runs. *)
+  Theorem ctl_propagates C : forall x s s1 ce s2,
+    reach C s = Some s1 -> ev x s1 = (inr ce, s2) -> is_ctl ce = true ->
+    ev (plug C x) s = (inr ce, s2).
+  Proof.
+    induction C; intros x s s1 ce s2 Hr Hx Hc; cbn [reach] in Hr; cbn [plug].
+    - inversion Hr; subst; exact Hx.
+    - rewrite eval_err, (IHC _ _ _ _ _ Hr Hx Hc). destruct ce; try discriminate; reflexivity.
+    - rewrite eval_err. destruct (ev a s) as [[v|[ | | | ]] s'] eqn:Ea; try discriminate. eauto.
+    - rewrite eval_or, (IHC _ _ _ _ _ Hr Hx Hc). reflexivity.
+    - rewrite eval_or. destruct (ev a s) as [[v|er] s'] eqn:Ea; try discriminate.
+      destruct (falsy v); try discriminate. eauto.
+    - rewrite eval_and, (IHC _ _ _ _ _ Hr Hx Hc). reflexivity.
+    - rewrite eval_and. destruct (ev a s) as [[v|er] s'] eqn:Ea; try discriminate.
+      destruct (falsy v); try discriminate. rewrite (IHC _ _ _ _ _ Hr Hx Hc). reflexivity.
+    - destruct (plain o) eqn:Ho; try discriminate.
+      rewrite (eval_plain _ _ _ _ Ho), (IHC _ _ _ _ _ Hr Hx Hc). reflexivity.
+    - destruct (plain o) eqn:Ho; try discriminate.
+      rewrite (eval_plain _ _ _ _ Ho). destruct (ev a s) as [[v|er] s'] eqn:Ea; try discriminate.
+      rewrite (IHC _ _ _ _ _ Hr Hx Hc). reflexivity.
+    - cbn [eval]. rewrite (IHC _ _ _ _ _ Hr Hx Hc). reflexivity.
+    - cbn [eval]. eauto.
+    - cbn [eval]. rewrite (IHC _ _ _ _ _ Hr Hx Hc). reflexivity.
+    - cbn [eval]. rewrite (IHC _ _ _ _ _ Hr Hx Hc). reflexivity.
+    - rewrite eval_assign_inf, (IHC _ _ _ _ _ Hr Hx Hc). destruct ce; try discriminate; reflexivity.
+    - rewrite eval_arr. destruct (seq pre s) as [s0|] eqn:Es; try discriminate. cbn [bind_st] in Hr.
+      eapply arr_go_ctl; eauto.
+    - rewrite eval_obj. destruct (seq (map snd pre) s) as [s0|] eqn:Es; try discriminate. cbn [bind_st] in Hr.
+      eapply obj_go_ctl; eauto.
+    - rewrite eval_call. destruct (seq pre s) as [s0|] eqn:Es; try discriminate. cbn [bind_st] in Hr.
+      eapply call_go_ctl; eauto.
+    - rewrite eval_block. destruct (seq pre s) as [s0|] eqn:Es; try discriminate. cbn [bind_st] in Hr.
+      eapply blk_ctl; eauto.
+    - rewrite eval_if. destruct (seq pre s) as [s0|] eqn:Es; try discriminate. cbn [bind_st] in Hr.
+      erewrite blk_ctl; eauto.
+    - rewrite eval_if. destruct (blk c s) as [[[ | | | |[|]| | | | ]|er] s'] eqn:Ec; try discriminate.
+      destruct (seq pre s') as [s0|] eqn:Es; try discriminate. cbn [bind_st] in Hr.
+      cbn [try_boolean]. eapply blk_ctl; eauto.
+    - rewrite eval_if. destruct (blk c s) as [[[ | | | |[|]| | | | ]|er] s'] eqn:Ec; try discriminate.
+      destruct (seq pre s') as [s0|] eqn:Es; try discriminate. cbn [bind_st] in Hr.
+      cbn [try_boolean]. eapply blk_ctl; eauto.
+    - cbn [eval]. rewrite (IHC _ _ _ _ _ Hr Hx Hc). reflexivity.
+    - cbn [eval]. rewrite (IHC _ _ _ _ _ Hr Hx Hc). reflexivity.
+    - rewrite eval_closure, (IHC _ _ _ _ _ Hr Hx Hc). reflexivity.
+  Qed.
+
+  (* ---------- C06 / C07 at program level ---------- *)
+
+  Theorem return_ends_program pre C post e s s0 s1 v s2 :
+    seq pre s = Some s0 -> reach C s0 = Some s1 -> ev e s1 = (inl v, s2) ->
+    run F binop (pre ++ plug C (EReturn e) :: post) s = (Success v, s2).
+  Proof.
+    intros Hp Hr He. unfold run.
+    assert (H : ev (EBlock (pre ++ plug C (EReturn e) :: post)) s = (inr (Return v), s2)).
+    { apply (ctl_propagates (CBlock pre C post) (EReturn e) s s1 (Return v) s2).
+      - cbn [reach]. rewrite Hp. exact Hr.
+      - cbn [eval]. rewrite He. reflexivity.
+      - reflexivity. }
+    rewrite H. reflexivity.
+  Qed.
+
+  Theorem abort_ends_program pre C post (m : option expr) s s0 s1 msg s2 :
+    seq pre s = Some s0 -> reach C s0 = Some s1 ->
+    match m with
+    | None => msg = None /\ s2 = s1
+    | Some me => exists b, ev me s1 = (inl (VBytes b), s2) /\ msg = Some b
+    end ->
+    run F binop (pre ++ plug C (EAbort m) :: post) s = (Aborted msg, s2).
+  Proof.
+    intros Hp Hr Hm. unfold run.
+    assert (H : ev (EBlock (pre ++ plug C (EAbort m) :: post)) s = (inr (Abort msg), s2)).
+    { apply (ctl_propagates (CBlock pre C post) (EAbort m) s s1 (Abort msg) s2).
+      - cbn [reach]. rewrite Hp. exact Hr.
+      - destruct m as [me|].
+        + destruct Hm as [b [Hb ->]]. cbn [eval]. rewrite Hb. reflexivity.
+        + destruct Hm as [-> ->]. reflexivity.
+      - reflexivity. }
+    rewrite H. reflexivity.
+  Qed.
+
+  (* ---------- variables ---------- *)
+
+  Lemma var_get_remove_same vs x : var_get (var_remove vs x) x = None.
+  Proof.
+    induction vs as [|[y v] vs IH]; cbn; auto.
+    destruct (bytes_eqb y x) eqn:E; auto. cbn. rewrite E. exact IH.
+  Qed.
+
+  Lemma var_get_remove_other vs x y : y <> x -> var_get (var_remove vs x) y = var_get vs y.
+  Proof.
+    intros Hne. induction vs as [|[z v] vs IH]; cbn; auto.
+    destruct (bytes_eqb z x) eqn:E.
+    - apply bytes_eqb_eq in E. subst z.
+      assert (H : bytes_eqb x y = false) by (apply bytes_eqb_neq; congruence). rewrite H. exact IH.
+    - cbn. destruct (bytes_eqb z y); auto.
+  Qed.
+
+  Lemma var_get_set_same vs x v : var_get (var_set vs x v) x = Some v.
+  Proof. unfold var_set. cbn. rewrite bytes_eqb_refl. reflexivity. Qed.
+
+  Lemma var_get_set_other vs x y v : y <> x -> var_get (var_set vs x v) y = var_get vs y.
+  Proof.
+    intros Hne. unfold var_set. cbn.
+    assert (H : bytes_eqb x y = false) by (apply bytes_eqb_neq; congruence). rewrite H.
+    apply var_get_remove_other. exact Hne.
+  Qed.
+
+  (* ---------- C13: closure parameters are restored, whatever the body does and however it ends ---------- *)
+
+  Definition same_var (x : ident) (s s' : state) : Prop := var_get (vars s') x = var_get (vars s) x.
+
+  Lemma cleanup_bind_same body p a s x :
+    p = Some x -> same_var x s (snd (run1 body p a s)).
+  Proof.
+    intros ->. unfold run1, same_var. cbn [bind_param].
+    destruct (body (set_vars s (var_set (vars s) x a))) as [r s2].
+    cbn [snd cleanup_param]. destruct (var_get (vars s) x) as [o|]; cbn [set_vars vars].
+    - apply var_get_set_same.
+    - apply var_get_remove_same.
+  Qed.
+
+  Lemma run2_restores body p0 p1 a b s x :
+    (p0 = Some x \/ p1 = Some x) -> p0 <> p1 \/ p0 = None ->
+    same_var x s (snd (run2 body p0 p1 a b s)).
+  Proof.
+    intros Hx Hd. unfold run2, same_var.
+    destruct p0 as [x0|], p1 as [x1|]; cbn [bind_param].
+    - destruct (body _) as [r s3]. cbn [snd cleanup_param].
+      assert (Hne : x0 <> x1) by (destruct Hd as [Hd|Hd]; congruence).
+      destruct Hx as [Hx|Hx]; inversion Hx; subst x.
+      + (* x = x0 *)
+        cbn [set_vars vars].
+        destruct (var_get (var_set (vars s) x0 a) x1) as [o1|]; cbn [set_vars vars].
+        * rewrite var_get_set_other by congruence.
+          destruct (var_get (vars s) x0); cbn [set_vars vars]; [apply var_get_set_same|apply var_get_remove_same].
+        * rewrite var_get_remove_other by congruence.
+          destruct (var_get (vars s) x0); cbn [set_vars vars]; [apply var_get_set_same|apply var_get_remove_same].
+      + (* x = x1 *)
+        cbn [set_vars vars]. rewrite (var_get_set_other (vars s) x0 x1 a) by congruence.
+        destruct (var_get (vars s) x1) as [o1|]; cbn [set_vars vars];
+          [apply var_get_set_same|apply var_get_remove_same].
+    - destruct (body _) as [r s3]. cbn [snd cleanup_param].
+      destruct Hx as [Hx|Hx]; inversion Hx; subst x.
+      destruct (var_get (vars s) x0); cbn [set_vars vars]; [apply var_get_set_same|apply var_get_remove_same].
+    - destruct (body _) as [r s3]. cbn [snd cleanup_param].
+      destruct Hx as [Hx|Hx]; inversion Hx; subst x.
+      destruct (var_get (vars s) x1); cbn [set_vars vars]; [apply var_get_set_same|apply var_get_remove_same].
+    - destruct Hx as [Hx|Hx]; discriminate.
+  Qed.
+
+  Lemma loop_same_var {A B} (step : A -> state -> (B + err) * state) x :
+    (forall a s, same_var x s (snd (step a s))) ->
+    forall items s, same_var x s (snd (loop step items s)).
+  Proof.
+    intros Hs. induction items as [|a r IH]; intros s; cbn [loop].
+    - reflexivity.
+    - specialize (Hs a s). destruct (step a s) as [[b|e] s'] eqn:E; cbn [snd] in *.
+      + specialize (IH s'). destruct (loop step r s') as [[bs|e] s'']; cbn [snd] in *;
+          unfold same_var in *; congruence.
+      + exact Hs.
+  Qed.
+
+  (* the parameters a closure-taking function binds *)
+  Definition cparams (cf : cfn) (ps : list ident) : list (option ident) :=
+    match cf with
+    | CForEach | CFilter => [param ps 0; param ps 1]
+    | CMapKeys | CMapValues => [param ps 0]
+    end.
+
+  Theorem closure_params_restored body ps cf v s x :
+    In (Some x) (cparams cf ps) -> (param ps 0 <> param ps 1 \/ param ps 0 = None) ->
+    same_var x s (snd (run_closure body ps cf v s)).
+  Proof.
+    intros Hin Hd.
+    assert (H2 : forall a b s0, (param ps 0 = Some x \/ param ps 1 = Some x) ->
+                 same_var x s0 (snd (run2 body (param ps 0) (param ps 1) a b s0))).
+    { intros. apply run2_restores; auto. }
+    assert (H1 : forall a s0, param ps 0 = Some x -> same_var x s0 (snd (run1 body (param ps 0) a s0))).
+    { intros. apply cleanup_bind_same; auto. }
+    unfold run_closure, lift.
+    destruct cf; cbn [cparams In] in Hin.
+    - assert (Hx : param ps 0 = Some x \/ param ps 1 = Some x) by (destruct Hin as [H|[H|[]]]; auto).
+      destruct v; try reflexivity.
+      + pose proof (loop_same_var (step_each_kv body ps) x) as L.
+        match goal with |- context [loop ?st ?it ?s0] =>
+          specialize (L (fun a s0 => ltac:(unfold step_each_kv; specialize (H2 (VBytes (fst a)) (snd a) s0 Hx);
+            destruct (run2 _ _ _ _ _ _) as [[?|?] ?]; exact H2)) it s0);
+          destruct (loop st it s0) as [[?|?] ?]; exact L end.
+      + pose proof (loop_same_var (step_each_iv body ps) x) as L.
+        match goal with |- context [loop ?st ?it ?s0] =>
+          specialize (L (fun a s0 => ltac:(unfold step_each_iv; specialize (H2 (VInt (fst a)) (snd a) s0 Hx);
+            destruct (run2 _ _ _ _ _ _) as [[?|?] ?]; exact H2)) it s0);
+          destruct (loop st it s0) as [[?|?] ?]; exact L end.
+    - assert (Hx : param ps 0 = Some x \/ param ps 1 = Some x) by (destruct Hin as [H|[H|[]]]; auto).
+      destruct v; try reflexivity.
+      + pose proof (loop_same_var (step_filter_kv body ps) x) as L.
+        match goal with |- context [loop ?st ?it ?s0] =>
+          specialize (L (fun a s0 => ltac:(unfold step_filter_kv; specialize (H2 (VBytes (fst a)) (snd a) s0 Hx);
+            destruct (run2 _ _ _ _ _ _) as [[[]|?] ?]; exact H2)) it s0);
+          destruct (loop st it s0) as [[?|?] ?]; exact L end.
+      + pose proof (loop_same_var (step_filter_iv body ps) x) as L.
+        match goal with |- context [loop ?st ?it ?s0] =>
+          specialize (L (fun a s0 => ltac:(unfold step_filter_iv; specialize (H2 (VInt (fst a)) (snd a) s0 Hx);
+            destruct (run2 _ _ _ _ _ _) as [[[]|?] ?]; exact H2)) it s0);
+          destruct (loop st it s0) as [[?|?] ?]; exact L end.
+    - assert (Hx : param ps 0 = Some x) by (destruct Hin as [H|[]]; auto).
+      destruct v; try reflexivity.
+      pose proof (loop_same_var (step_mapk body ps) x) as L.
+      match goal with |- context [loop ?st ?it ?s0] =>
+        specialize (L (fun a s0 => ltac:(unfold step_mapk; specialize (H1 (VBytes (fst a)) s0 Hx);
+          destruct (run1 _ _ _ _) as [[[]|?] ?]; exact H1)) it s0);
+        destruct (loop st it s0) as [[?|?] ?]; exact L end.
+    - assert (Hx : param ps 0 = Some x) by (destruct Hin as [H|[]]; auto).
+      destruct v; try (apply H1; exact Hx).
+      + pose proof (loop_same_var (step_mapv_kv body ps) x) as L.
+        match goal with |- context [loop ?st ?it ?s0] =>
+          specialize (L (fun a s0 => ltac:(unfold step_mapv_kv; specialize (H1 (snd a) s0 Hx);
+            destruct (run1 _ _ _ _) as [[?|?] ?]; exact H1)) it s0);
+          destruct (loop st it s0) as [[?|?] ?]; exact L end.
+      + pose proof (loop_same_var (step_mapv body ps) x) as L.
+        match goal with |- context [loop ?st ?it ?s0] =>
+          specialize (L (fun a s0 => ltac:(unfold step_mapv; specialize (H1 a s0 Hx);
+            destruct (run1 _ _ _ _) as [[?|?] ?]; exact H1)) it s0);
+          destruct (loop st it s0) as [[?|?] ?]; exact L end.
+  Qed.
+
+  (* ---------- C06 inside closures: `return` ends the current iteration only ---------- *)
+
+  Lemma body_return pre C post e s1 s1' s2 v s3 :
+    seq pre s1 = Some s1' -> reach C s1' = Some s2 -> ev e s2 = (inl v, s3) ->
+    blk (pre ++ plug C (EReturn e) :: post) s1 = (inr (Return v), s3).
+  Proof.
+    intros Hp Hr He. rewrite <- eval_block.
+    apply (ctl_propagates (CBlock pre C post) (EReturn e) s1 s2 (Return v) s3).
+    - cbn [reach]. rewrite Hp. exact Hr.
+    - cbn [eval]. rewrite He. reflexivity.
+    - reflexivity.
+  Qed.
+
+  (* one-parameter runners (map_keys, map_values; objects, arrays, scalars) *)
+  Theorem return_ends_iteration1 pre C post e p a s old s1 s1' s2 v s3 :
+    bind_param s p a = (old, s1) ->
+    seq pre s1 = Some s1' -> reach C s1' = Some s2 -> ev e s2 = (inl v, s3) ->
+    run1 (blk (pre ++ plug C (EReturn e) :: post)) p a s = (inl v, cleanup_param s3 p old).
+  Proof.
+    intros Hb Hp Hr He. unfold run1. rewrite Hb.
+    rewrite (body_return pre C post e s1 s1' s2 v s3 Hp Hr He). reflexivity.
+  Qed.
+
+  (* two-parameter runners (for_each, filter; key/value and index/value) *)
+  Theorem return_ends_iteration2 pre C post e p0 p1 a b s old0 sa old1 s1 s1' s2 v s3 :
+    bind_param s p0 a = (old0, sa) -> bind_param sa p1 b = (old1, s1) ->
+    seq pre s1 = Some s1' -> reach C s1' = Some s2 -> ev e s2 = (inl v, s3) ->
+    run2 (blk (pre ++ plug C (EReturn e) :: post)) p0 p1 a b s =
+    (inl v, cleanup_param (cleanup_param s3 p0 old0) p1 old1).
+  Proof.
+    intros Hb0 Hb1 Hp Hr He. unfold run2. rewrite Hb0, Hb1.
+    rewrite (body_return pre C post e s1 s1' s2 v s3 Hp Hr He). reflexivity.
+  Qed.
+
+  (* a `return` never escapes a closure-taking call *)
+  Definition not_return {X} (r : X + err) : Prop :=
+    match r with inr (Return _) => False | _ => True end.
+
+  Lemma iter_result_no_return r : not_return (iter_result r).
+  Proof. destruct r as [v|[ | | | ]]; exact I. Qed.
+
+  Lemma run1_no_return body p a s : not_return (fst (run1 body p a s)).
+  Proof.
+    unfold run1. destruct (bind_param s p a) as [o s1]. destruct (body s1) as [r s2].
+    cbn [fst]. apply iter_result_no_return.
+  Qed.
+
+  Lemma run2_no_return body p0 p1 a b s : not_return (fst (run2 body p0 p1 a b s)).
+  Proof.
+    unfold run2. destruct (bind_param s p0 a) as [o s1]. destruct (bind_param s1 p1 b) as [o1 s2].
+    destruct (body s2) as [r s3]. cbn [fst]. apply iter_result_no_return.
+  Qed.
+
+  Lemma loop_no_return {A B} (step : A -> state -> (B + err) * state) :
+    (forall a s, not_return (fst (step a s))) ->
+    forall items s, not_return (fst (loop step items s)).
+  Proof.
+    intros Hs. induction items as [|a r IH]; intros s; cbn [loop].
+    - exact I.
+    - specialize (Hs a s). destruct (step a s) as [[b|e] s']; cbn [fst] in *.
+      + specialize (IH s'). destruct (loop step r s') as [[bs|e] s'']; cbn [fst] in *; auto.
+      + destruct e; auto.
+  Qed.
+
+  Lemma lift_no_return {A} (f : A -> value) x : not_return (fst x) -> not_return (fst (lift f x)).
+  Proof. destruct x as [[a|e] s0]; cbn; auto. Qed.
+
+  Theorem closure_call_no_return body ps cf v s : not_return (fst (run_closure body ps cf v s)).
+  Proof.
+    assert (H1 := run1_no_return body). assert (H2 := run2_no_return body).
+    unfold run_closure.
+    destruct cf, v; try exact I; try apply H1; apply lift_no_return; apply loop_no_return; intros a s1.
+    - unfold step_each_kv. specialize (H2 (param ps 0) (param ps 1) (VBytes (fst a)) (snd a) s1).
+      destruct (run2 _ _ _ _ _ _) as [[?|?] ?]; cbn [fst] in *; auto.
+    - unfold step_each_iv. specialize (H2 (param ps 0) (param ps 1) (VInt (fst a)) (snd a) s1).
+      destruct (run2 _ _ _ _ _ _) as [[?|?] ?]; cbn [fst] in *; auto.
+    - unfold step_filter_kv. specialize (H2 (param ps 0) (param ps 1) (VBytes (fst a)) (snd a) s1).
+      destruct (run2 _ _ _ _ _ _) as [[[]|?] ?]; cbn [fst] in *; auto; exact I.
+    - unfold step_filter_iv. specialize (H2 (param ps 0) (param ps 1) (VInt (fst a)) (snd a) s1).
+      destruct (run2 _ _ _ _ _ _) as [[[]|?] ?]; cbn [fst] in *; auto; exact I.
+    - unfold step_mapk. specialize (H1 (param ps 0) (VBytes (fst a)) s1).
+      destruct (run1 _ _ _ _) as [[[]|?] ?]; cbn [fst] in *; auto; exact I.
+    - unfold step_mapv_kv. specialize (H1 (param ps 0) (snd a) s1).
+      destruct (run1 _ _ _ _) as [[?|?] ?]; cbn [fst] in *; auto.
+    - unfold step_mapv. specialize (H1 (param ps 0) a s1).
+      destruct (run1 _ _ _ _) as [[?|?] ?]; cbn [fst] in *; auto.
+  Qed.
+
+
+  (* ---------- C07 inside closures: the iteration that aborts ends the whole call ---------- *)
+
+  Lemma loop_first_failure {A B} (step : A -> state -> (B + err) * state) pre : forall a post s bs s1 e s2,
+    loop step pre s = (inl bs, s1) -> step a s1 = (inr e, s2) ->
+    loop step (pre ++ a :: post) s = (inr e, s2).
+  Proof.
+    induction pre as [|p pre IH]; intros a post s bs s1 e s2 Hl Hs; cbn [loop app] in *.
+    - inversion Hl; subst. rewrite Hs. reflexivity.
+    - destruct (step p s) as [[b|e0] s'] eqn:Ep; try discriminate.
+      destruct (loop step pre s') as [[bs0|e0] s''] eqn:El; try discriminate.
+      inversion Hl; subst. erewrite IH; eauto.
+  Qed.
+
+  Lemma body_abort pre C post m s1 s1' s2 msg s3 :
+    seq pre s1 = Some s1' -> reach C s1' = Some s2 ->
+    ev (EAbort m) s2 = (inr (Abort msg), s3) ->
+    blk (pre ++ plug C (EAbort m) :: post) s1 = (inr (Abort msg), s3).
+  Proof.
+    intros Hp Hr He. rewrite <- eval_block.
+    apply (ctl_propagates (CBlock pre C post) (EAbort m) s1 s2 (Abort msg) s3); auto.
+    cbn [reach]. rewrite Hp. exact Hr.
+  Qed.
+
+  Theorem abort_in_iteration1 body p a s old s1 msg s2 :
+    bind_param s p a = (old, s1) -> body s1 = (inr (Abort msg), s2) ->
+    run1 body p a s = (inr (Abort msg), cleanup_param s2 p old).
+  Proof. intros Hb He. unfold run1. rewrite Hb, He. reflexivity. Qed.
+
+  Theorem abort_in_iteration2 body p0 p1 a b s old0 sa old1 s1 msg s2 :
+    bind_param s p0 a = (old0, sa) -> bind_param sa p1 b = (old1, s1) ->
+    body s1 = (inr (Abort msg), s2) ->
+    run2 body p0 p1 a b s = (inr (Abort msg), cleanup_param (cleanup_param s2 p0 old0) p1 old1).
+  Proof. intros Hb0 Hb1 He. unfold run2. rewrite Hb0, Hb1, He. reflexivity. Qed.
+
+  Theorem closure_call_params_restored cf arg ps body s v s' x :
+    ev arg s = (inl v, s') ->
+    In (Some x) (cparams cf ps) -> (param ps 0 <> param ps 1 \/ param ps 0 = None) ->
+    same_var x s' (snd (ev (EClosure cf arg ps body) s)).
+  Proof.
+    intros Ha Hin Hd. rewrite eval_closure, Ha. apply closure_params_restored; auto.
+  Qed.
+
+  (* consequences of the one-step equations, in the words of C08 / C09 *)
+  Theorem coalesce_success a b s v s' :
+    ev a s = (inl v, s') -> ev (EOp OErr a b) s = (inl v, s').
+  Proof. intros H. rewrite eval_err, H. reflexivity. Qed.
+
+  Theorem coalesce_failure a b s s' :
+    ev a s = (inr Error, s') -> ev (EOp OErr a b) s = ev b s'.
+  Proof. intros H. rewrite eval_err, H. reflexivity. Qed.
+
+  Theorem or_truthy a b s v s' :
+    ev a s = (inl v, s') -> falsy v = false -> ev (EOp OOr a b) s = (inl v, s').
+  Proof. intros H Hf. rewrite eval_or, H, Hf. reflexivity. Qed.
+
+  Theorem or_falsy a b s v s' :
+    ev a s = (inl v, s') -> falsy v = true -> ev (EOp OOr a b) s = ev b s'.
+  Proof. intros H Hf. rewrite eval_or, H, Hf. reflexivity. Qed.
+
+  Theorem and_falsy a b s v s' :
+    ev a s = (inl v, s') -> falsy v = true -> ev (EOp OAnd a b) s = (inl (VBool false), s').
+  Proof. intros H Hf. rewrite eval_and, H, Hf. reflexivity. Qed.
+
+  Theorem and_true a b s s' w s'' :
+    ev a s = (inl (VBool true), s') -> ev b s' = (inl w, s'') ->
+    ev (EOp OAnd a b) s = (match w with
+                           | VBool y => inl (VBool y)
+                           | VNull => inl (VBool false)
+                           | _ => inr Error end, s'').
+  Proof. intros H H2. rewrite eval_and, H. cbn [falsy]. rewrite H2. destruct w; reflexivity. Qed.
+
+  Theorem if_true c t f s s' :
+    blk c s = (inl (VBool true), s') -> ev (EIf c t f) s = blk t s'.
+  Proof. intros H. rewrite eval_if, H. reflexivity. Qed.
+
+  Theorem if_false_else c t fb s s' :
+    blk c s = (inl (VBool false), s') -> ev (EIf c t (Some fb)) s = blk fb s'.
+  Proof. intros H. rewrite eval_if, H. reflexivity. Qed.
+
+  Theorem if_false_no_else c t s s' :
+    blk c s = (inl (VBool false), s') -> ev (EIf c t None) s = (inl VNull, s').
+  Proof. intros H. rewrite eval_if, H. reflexivity. Qed.
 End EvalProofs.
